@@ -19,11 +19,10 @@ Definition eco_nuget : ecosys semver := {|
   ec_rel := all_true3;
   ec_total_dom := all_true; ec_eqb := semver_eqb |}.
 
-(* CRAN: "never panics" is only claimed where every component is a number (cran_total_refuted) *)
 Definition eco_cran : ecosys cran := {|
   ec_parse := Some parse_cran; ec_cmp := cmp_cran; ec_valid := valid_cran;
   ec_rel := all_true3;
-  ec_total_dom := valid_cran; ec_eqb := cran_eqb |}.
+  ec_total_dom := all_true; ec_eqb := cran_eqb |}.
 
 Definition eco_rubygems : ecosys rubygems := {|
   ec_parse := Some parse_rubygems; ec_cmp := cmp_rubygems; ec_valid := valid_rubygems;
@@ -47,7 +46,7 @@ Definition eco_pypi : ecosys pypi := {|
   ec_rel := all_true3;
   ec_total_dom := valid_pypi; ec_eqb := pypi_eqb |}.
 
-(* Packagist: transitivity only claimed where numeric components fit int64 (packagist_trans_refuted) *)
+(* Packagist: transitivity only claimed without '#...' qualifiers (packagist_hash_eq_not_transitive_refuted) *)
 Definition eco_packagist : ecosys packagist := {|
   ec_parse := None; ec_cmp := cmp_packagist; ec_valid := valid_packagist;
   ec_rel := all_true3;
